@@ -20,6 +20,7 @@ var (
 	allowedFull bool   // the reference evaluation ran to its end
 	refCalls    int    // calls made by the reference evaluation
 	extraCall   string // first call of the real run outside `allowed`
+	afterStop   bool   // the visitor of the running ForEach has returned its error
 	curTyping   string // label of the typing being run
 	keyBuf      []byte
 )
@@ -59,13 +60,24 @@ func allow(n *node, e env, nargs, a, b int) {
 // called: the real combinators call the function of node n on (a) / (a, b)
 func called(n *node, e env, nargs, a, b int) {
 	tick()
-	if !allowedFull || extraCall != "" {
+	if extraCall != "" {
 		return
 	}
-	if _, ok := allowed[string(callKey(n, e, nargs, a, b))]; ok {
-		return
+	// "ForEach stops with the first error returned": once the visitor has returned its error, no user callback runs
+	// any more (afterStop is set by the visitor of the ForEach runs, cleared when a run starts)
+	after := afterStop
+	if !after {
+		if !allowedFull {
+			return
+		}
+		if _, ok := allowed[string(callKey(n, e, nargs, a, b))]; ok {
+			return
+		}
 	}
 	var sb strings.Builder
+	if after {
+		sb.WriteString("after-stop:")
+	}
 	sb.WriteString(n.op)
 	if n.fn != "" {
 		sb.WriteString("." + n.fn)
@@ -87,10 +99,10 @@ func called(n *node, e env, nargs, a, b int) {
 
 func callsVerdict() string {
 	switch {
-	case !allowedFull:
-		return "unchecked"
 	case extraCall != "":
 		return "extra:" + extraCall
+	case !allowedFull:
+		return "unchecked"
 	}
 	return "ok"
 }
@@ -99,7 +111,7 @@ func callsVerdict() string {
 // unknown function, "" otherwise.
 func reference(n *node, pairKind bool) (bad string) {
 	clear(allowed)
-	allowedFull, refCalls, extraCall = false, 0, ""
+	allowedFull, refCalls, extraCall, afterStop = false, 0, "", false
 	defer func() {
 		if r := recover(); r != nil {
 			if _, ok := r.(refOverflow); ok {
